@@ -22,8 +22,9 @@ Theorem C05_observational_equality_covers_all_reads :
 Proof. exact obs_eq_reads. Qed.
 Print Assumptions C05_observational_equality_covers_all_reads.
 
-(** Every pure EVM program (any call tree of SSTORE / LOG / BALANCE / value calls /
-    REVERT, with catching and propagating callers, no precompile call) leaves the
+(** Every pure EVM program (any call tree of SSTORE / LOG / BALANCE / value calls / SELFDESTRUCT /
+    CREATE with a constructor running such code / REVERT, with catching and propagating callers, no
+    precompile call; [pure] is exactly "no IPre anywhere") leaves the
     Cosmos side untouched while it runs and only extends the journal in a way that
     reverts cleanly to ANY earlier snapshot. *)
 Theorem C05_pure_code_is_a_clean_journal_extension :
@@ -138,8 +139,8 @@ Print Assumptions C05_creation_in_reverted_frame_keeps_the_nonce_example.
     execution of an instruction leaves the Cosmos side untouched and extends the journal cleanly: reverting to any
     earlier snapshot (what an enclosing frame that fails does) restores every cache observable. *)
 Theorem C05_pure_code_with_creations_is_a_clean_journal_extension :
-  forall i, purec i = true -> forall order o self W D, wf W D ->
+  forall i, pure i = true -> forall order o self W D, wf W D ->
     fst (fst (exec_instr order o self i (W, D))) = W /\
     ext W D (snd (fst (exec_instr order o self i (W, D)))).
-Proof. exact purec_instr_ext. Qed.
+Proof. exact pure_instr_ext. Qed.
 Print Assumptions C05_pure_code_with_creations_is_a_clean_journal_extension.
